@@ -1078,6 +1078,19 @@ class Unit:
             self.log.setdefault("substitutions", []).append({"fn": spec["name"], "old": old, "new": new})
         parts = find_fn_parts(toks)
         loops = find_loops(toks, parts["body_open"])
+        # `$mutN` in loop specs / ghost blocks stands for the N-th `let mut` local of the function (in source order, as named
+        # after the rewrites): invariants then survive a renaming of the function's temporaries
+        ct_ = [t for t in toks[parts["body_open"]:] if not L.is_trivia(t)]
+        mut_locals = [ct_[q + 2].text for q in range(len(ct_) - 2) if ct_[q].text == "let" and ct_[q + 1].text == "mut" and ct_[q + 2].kind == L.IDENT]
+        def subst_mut(line):
+            def rep(m):
+                k = int(m.group(1))
+                if k >= len(mut_locals):
+                    raise Unsupported("lost anchor: fn %s has %d `let mut` locals, spec names $mut%d" % (spec["name"], len(mut_locals), k))
+                return mut_locals[k]
+            return re.sub(r"\$mut(\d+)", rep, line)
+        spec = dict(spec, loops={k: [subst_mut(l) for l in v] for k, v in spec["loops"].items()},
+                    at=[(a_, subst_mut(t_)) for a_, t_ in spec.get("at", [])])
         # assemble
         sig_end = parts["body_open"]
         pieces = []
